@@ -227,6 +227,7 @@ def run(ctx):
     _validate_exists(r, p, va)
     _file_level_index(r, p)
     _single_key_entries(r, p)
+    _lookup_name(r, p)
     # deprecated branch of Rule.configure
     dep = [n for n in walk_function(conf.node) if isinstance(n, ast.If) and "self.deprecated" in norm(n.test)]
     if dep and dep[0].body and isinstance(dep[0].body[0], ast.Return) and "print_output" in norm(dep[0].body[0].value) and "self.unique_id in" in norm(dep[0].test):
@@ -318,6 +319,45 @@ def _file_level_index(r, p):
             r.fail("C12.filelevel", kk, "%s (whose result is searched with .index() in %s to index the configuration list) %s: the per-file configuration of a later entry is looked up at the wrong position and silently ignored" % (f.name, user.name, "; ".join(problems)), f.loc())
         else:
             r.ok("C12.filelevel", kk, "one name appended per entry of the configuration list, in order, on every path (dict entries contribute their keys: one key per entry as written by the configuration reader)")
+
+
+def _lookup_name(r, p):
+    """The per-file level is found by comparing the name of the file being analysed with the names stored in the
+    configuration as strings.  The reader stores glob results with back-slashes turned into '/', nothing else; the
+    look-up side may therefore do exactly one thing to the file name: replace the separator by '/'.  Any other
+    normalisation (pathlib, normpath, abspath, case folding) makes names that differ only in form (`./src/x.vhd`)
+    miss their entry silently - the file is then analysed and fixed as if it had no per-file configuration."""
+    cr = p.function("vsg.apply_rules:configure_rules")
+    name = cr.params[-1]
+
+    def sep_only(e, var):
+        # var.replace(<sep>, "/") (possibly chained), or var itself
+        while isinstance(e, ast.Call) and isinstance(e.func, ast.Attribute) and e.func.attr == "replace" and len(e.args) == 2:
+            a, b = e.args
+            if not (isinstance(b, ast.Constant) and b.value == "/" and (norm(a) == "os.sep" or (isinstance(a, ast.Constant) and a.value == "\\"))):
+                return False
+            e = e.func.value
+        return isinstance(e, ast.Name) and e.id == var
+
+    stores = [n for n in walk_function(cr.node) if isinstance(n, ast.Assign) and any(norm(t) == name for t in n.targets)]
+    bad = [n for n in stores if not sep_only(n.value, name)]
+    # the name handed on to the per-section look-ups is that variable
+    handed = [c for c in walk_function(cr.node) if isinstance(c, ast.Call) and c.args and any("file" in norm(c.func).lower() for _ in [0])]
+    other = [c for c in handed if not any(norm(a) == name for a in c.args) and "per_file" in norm(c.func)]
+    kk = cr.key + ":lookup-name"
+    if bad:
+        r.fail("C12.filelevel", kk, "the name used to find a file's per-file configuration is `%s`: more than a separator replacement, while the configuration reader stores names as globbed with only '\\' turned into '/' - an entry written as `./src/x.vhd` is no longer found, and its `disable` / `fixable` / severity settings are silently dropped" % norm(bad[0].value)[:60], cr.loc(bad[0]))
+    elif other:
+        r.fail("C12.filelevel", kk, "a per-file look-up is not given the normalised file name (`%s`)" % norm(other[0])[:60], cr.loc(other[0]))
+    else:
+        r.ok("C12.filelevel", kk, "the look-up name is the file name with separators replaced by '/' (%d assignment(s)), the same and only normalisation the reader applies to stored names" % len(stores))
+    rb = p.function("vsg.config:replace_backslash_with_forward_slash")
+    comps = [n for n in walk_function(rb.node) if isinstance(n, ast.ListComp)]
+    okw = len(comps) == 1 and len(comps[0].generators) == 1 and not comps[0].generators[0].ifs and isinstance(comps[0].generators[0].target, ast.Name) and sep_only(comps[0].elt, comps[0].generators[0].target.id)
+    if okw:
+        r.ok("C12.filelevel", rb.key + ":stored-name", "stored names: glob result with back-slashes replaced, nothing else")
+    else:
+        r.fail("C12.filelevel", rb.key + ":stored-name", "the configuration reader no longer stores globbed names with only the separator replaced: stored and looked-up names can differ in form", rb.loc())
 
 
 def _single_key_entries(r, p):
@@ -704,6 +744,11 @@ def _normalised_use(r, p):
 
 _R = "vsg/rule.py"
 VARIANTS = [
+    Variant("C12", "per-file look-up name normalised with pathlib", "fire",
+            [("vsg/apply_rules.py", "    sFileName = sFileName.replace(os.sep, \"/\")", "    import pathlib\n\n    sFileName = pathlib.PurePath(sFileName).as_posix()")],
+            rule="C12.filelevel", key="lookup-name"),
+    Variant("C12", "twin: separator replacement written with a literal back-slash as well", "silent",
+            [("vsg/apply_rules.py", "    sFileName = sFileName.replace(os.sep, \"/\")", "    sFileName = sFileName.replace(os.sep, \"/\").replace(\"\\\\\", \"/\")")]),
     Variant("C12", "flattened file-name list drops names it already holds", "fire",
             [("vsg/utils.py", "        else:\n            lReturn.append(dFile)\n\n    return lReturn", "        elif dFile not in lReturn:\n            lReturn.append(dFile)\n\n    return lReturn")],
             rule="C12.filelevel", key="position-preserving"),
